@@ -10,6 +10,8 @@ import (
 
 	c4eapp "github.com/chain4energy/c4e-chain/app"
 	appparams "github.com/chain4energy/c4e-chain/app/params"
+	sigkeeper "github.com/chain4energy/c4e-chain/x/cfesignature/keeper"
+	sigtypes "github.com/chain4energy/c4e-chain/x/cfesignature/types"
 	"github.com/cosmos/cosmos-sdk/simapp"
 	sdk "github.com/cosmos/cosmos-sdk/types"
 	abci "github.com/tendermint/tendermint/abci/types"
@@ -273,4 +275,31 @@ func (p *PanicInfo) Site() string {
 		return fn + "@" + file
 	}
 	return "outside-repo"
+}
+
+// DirectSig runs a cfesignature message through keeper.NewMsgServerImpl on a cache-wrapped deliver context.
+// The module's Msg service is not registered in the shipped app (its transactions answer "unrecognized message
+// route"), so this message server is the module's public write API.
+func (c *Chain) DirectSig(msg sdk.Msg) (err error, pi *PanicInfo) {
+	srv := sigkeeper.NewMsgServerImpl(c.App.CfesignatureKeeper)
+	ctx := c.Ctx()
+	cctx, write := ctx.CacheContext()
+	pi = catch("DirectSig:"+sdk.MsgTypeURL(msg), func() {
+		goCtx := sdk.WrapSDKContext(cctx)
+		switch m := msg.(type) {
+		case *sigtypes.MsgCreateAccount:
+			_, err = srv.CreateAccount(goCtx, m)
+		case *sigtypes.MsgStoreSignature:
+			_, err = srv.StoreSignature(goCtx, m)
+		case *sigtypes.MsgPublishReferencePayloadLink:
+			_, err = srv.PublishReferencePayloadLink(goCtx, m)
+		default:
+			err = fmt.Errorf("not a cfesignature message: %T", msg)
+		}
+	})
+	if pi == nil && err == nil {
+		write()
+	}
+	c.Txs++
+	return
 }
